@@ -391,7 +391,36 @@ def corpus(world):
                                  {"k": "s", "ls": n1[1:], "o": []}, {"k": "s", "ls": n1, "o": []}]},
         # killed in the very first slice (no state file yet)
         {"names": n1, "events": [{"k": "k", "ls": n1, "o": [], "kill": 2, "style": 0}, {"k": "s", "ls": n1, "o": []}]},
-    ]
+    ] + regression_corpus(P)
+
+
+def regression_corpus(P):
+    """Minimal histories for resume mechanisms that were once broken by seeded changes (seeded/C27-a,b,c):
+    each must be decided by the monitor on its own, whatever the random stream does."""
+    a, b = P[0], P[1]
+    res = []
+    n3 = [a + "aa", a + "ab", a + "ac"]
+    for mid in ([], [{"k": "r"}], [{"k": "g"}]):
+        # (a) the slice ends inside a prefix after bucket X and X is gone when the crawl resumes: the bucket after X
+        #     (present throughout) must still be processed - same process, lost process, orderly stop
+        res.append({"names": n3, "events": [{"k": "s", "ls": n3, "o": [0]}] + mid +
+                    [{"k": "s", "ls": n3[1:], "o": []}, {"k": "s", "ls": n3[1:], "o": []}]})
+        # same with the marker being the middle bucket
+        res.append({"names": n3, "events": [{"k": "s", "ls": n3, "o": [1]}] + mid +
+                    [{"k": "s", "ls": [n3[0], n3[2]], "o": []}, {"k": "s", "ls": [n3[0], n3[2]], "o": []}]})
+    nb = [a + "aa", b + "aa", b + "ab", P[2] + "aa"]
+    for stop in ("r", "g"):
+        # (b) a new process in the middle of a cycle, one prefix complete, the next one partly done (checks: 0 after
+        #     P0/aa, 1 after prefix 0, 2 after P1/aa) or not started: it must resume IN that prefix, not after it
+        res.append({"names": nb, "events": [{"k": "s", "ls": nb, "o": [2]}, {"k": stop},
+                                            {"k": "s", "ls": nb, "o": []}, {"k": "s", "ls": nb, "o": []}]})
+        res.append({"names": nb, "events": [{"k": "s", "ls": nb, "o": [1]}, {"k": stop},
+                                            {"k": "s", "ls": nb, "o": []}, {"k": "s", "ls": nb, "o": []}]})
+        # (c) one prefix spans two slice ends in the same process, then a new process: the state file must carry the
+        #     marker of the SECOND slice (no bucket twice without a mid-slice kill)
+        res.append({"names": n3, "events": [{"k": "s", "ls": n3, "o": [0]}, {"k": "s", "ls": n3, "o": [0]}, {"k": stop},
+                                            {"k": "s", "ls": n3, "o": []}, {"k": "s", "ls": n3, "o": []}]})
+    return res
 
 
 def run(ctx):
@@ -412,12 +441,13 @@ def _run(ctx, world):
         scheds = [ctx.replay["case"]]
     else:
         scheds += corpus(world)
-        nsets = ctx.budget(2, 40)
+        only_corpus = bool(os.environ.get("VERIF_CORPUS_ONLY"))     # knob: fixed corpus only
+        nsets = 0 if only_corpus else ctx.budget(2, 40)
         for i in range(nsets):
             nb = rng.choice([2, 3, 4]) if ctx.tier != "thorough" else rng.choice([1, 2, 3, 4, 5, 6])
             names = gen_names(rng, world.prefixes, rng.choice([1, 2, 3]), nb)
             scheds += systematic(world, names, ctx.tier == "thorough")
-        for i in range(ctx.budget(250, 6000)):
+        for i in range(0 if only_corpus else ctx.budget(250, 6000)):
             names = gen_names(rng, world.prefixes, rng.choice([1, 2, 3, 4]), rng.choice([1, 2, 3, 4, 5, 6]))
             scheds.append(gen_random(rng, world, names))
     impl, lines = [], []
